@@ -15,6 +15,9 @@ struct shim_cfg {
 	long zero_at;	/* write-like call index that returns 0 (-1: never) */
 	int active;
 	int fixed;	/* count for SHIM_FIXED */
+	long eagain_at[3];	/* call indices that fail with EAGAIN (-1: unused); component tie only.
+				   NB: a zero-initialised cfg has eagain_at = {0,0,0}; eagain_on gates them */
+	int eagain_on;
 };
 
 struct shim_rec {
